@@ -38,7 +38,10 @@ def _sig(**kw):
 
 
 def _compile(stmt, dialect):
-    return " ".join(str(stmt.compile(dialect=dialect, compile_kwargs={"literal_binds": True})).split())
+    try:
+        return " ".join(str(stmt.compile(dialect=dialect, compile_kwargs={"literal_binds": True})).split())
+    except Exception as ex:          # an internal error of the compiler is a wrong rendering, not a harness failure
+        return "COMPILE-ERROR %s: %s ORDER BY x" % (type(ex).__name__, " ".join(str(ex).split()))
 
 
 def _depth_of(text, pos):
@@ -121,6 +124,8 @@ def main(chk):
     d_ora_new = oracle.dialect()
     d_pg = postgresql.dialect()
     d_my = mysql.dialect()
+    from sqlalchemy.engine import default as _default
+    d_generic = _default.DefaultDialect()
     nexec = nshape = nontriv = 0
     counts = {}
     samples = []
@@ -242,11 +247,20 @@ def main(chk):
             nshape += 1
             m = re.search(r"ORDER BY .*?(?: LIMIT (\d+|ALL))?(?: OFFSET (\d+))?$", text)
             pa = c["pg"]
-            gotL = -1 if m.group(1) in (None, "ALL") else int(m.group(1))
-            gotO = -1 if m.group(2) is None else int(m.group(2))
+            gotL = None if m is None else -1 if m.group(1) in (None, "ALL") else int(m.group(1))
+            gotO = None if m is None else -1 if m.group(2) is None else int(m.group(2))
             bump("pg")
-            if (gotL, gotO) != (pa["L"], pa["O"]) or (m.group(1) == "ALL") != (lim is None):
+            if m is None or (gotL, gotO) != (pa["L"], pa["O"]) or (m.group(1) == "ALL") != (lim is None):
                 chk.violation(_sig(action="limit_offset_text", dialect="postgresql", **base), "PostgreSQL limit=%r offset=%r: %s" % (lim, off, text), dict(case=c, sql=text))
+            # the generic compiler third-party dialects inherit: LIMIT n | LIMIT -1, OFFSET only if given
+            text = _compile(stmt, d_generic)
+            nshape += 1
+            m = re.search(r"ORDER BY .*?(?: LIMIT (-?\d+))?(?: OFFSET (\d+))?$", text)
+            gotL = None if m is None else -1 if m.group(1) is None else int(m.group(1))
+            gotO = None if m is None else -1 if m.group(2) is None else int(m.group(2))
+            bump("generic")
+            if m is None or (gotL, gotO) != (pa["L"], pa["O"]) or (m.group(1) == "-1") != (lim is None):
+                chk.violation(_sig(action="limit_offset_text", dialect="default", **base), "generic dialect limit=%r offset=%r: %s" % (lim, off, text), dict(case=c, sql=text))
             # MySQL
             text = _compile(stmt, d_my)
             nshape += 1
@@ -323,7 +337,7 @@ def main(chk):
                                     mssql_wrapper=_compile(apply(qs["plain"], lim, off, "int"), d_ms_old),
                                     oracle_rownum=_compile(apply(qs["plain"], lim, off, "int"), d_ora_old)))
     for need in ("sqlite/plain", "sqlite/join", "sqlite/distinct", "sqlite/group_by", "mssql/top", "mssql/wrapper", "mssql2012", "oracle12", "pg", "mysql",
-                 "oracle_rownum", "fetch_options"):
+                 "oracle_rownum", "fetch_options", "generic"):
         if not counts.get(need):
             chk.machinery("vacuous: nothing exercised %s" % need)
     eng.dispose()
